@@ -30,9 +30,11 @@ EXTENDS TaskEngine
 
 CONSTANTS MaxBoot,          \* boot ids are 1..MaxBoot
           MaxCalls,         \* restart-manager calls handlers may make
-          BoundaryChoices,  \* set of boundary marks a task may carry (subsets of {"do","undo"})
+          BoundaryChoices,  \* set of boundary markings [Tasks -> SUBSET {"do","undo"}]
           ClassicChoices,   \* subset of BOOLEAN
-          TypeChoices       \* restart types handlers may pass: subset of {"system","now","daemon"}
+          TypeChoices,      \* restart types handlers may pass: subset of {"system","now","daemon"}
+          DagChoices,       \* dependency graphs
+          BootAnywhere      \* TRUE: the process may die at any point; FALSE: only with no handler in flight
 
 VARIABLES
   \* ---- fixed after Init
@@ -80,13 +82,14 @@ Idle(st, c) == \A t \in TasksOf(c) : ~CanRun(st, t)
 (* memory of a critical section                                              *)
 RMem == [st |-> status, wd |-> waited, rdy |-> rdy, pan |-> panicked,
          pend |-> pend, lobs |-> lobs, from |-> fromBoot, wb |-> waitBoot, wf |-> wfsr,
+         boot |-> bootId,  \* RestartManager.bootID
          rq |-> <<>>,      \* Handler.HandleRestart calls made in this section: [c, ty, idle]
          nt |-> <<>>,      \* classic reboot-required notifications made in this section: [c, idle]
          lg |-> "none"]    \* task log line written by markTaskForRestart
 
 \* restart.Request(st, ty, info)
 DoRequest(m, c, ty) ==
-  [m EXCEPT !.from = IF ty \in SysTypes THEN bootId ELSE @,
+  [m EXCEPT !.from = IF ty \in SysTypes THEN m.boot ELSE @,
             !.rq = Append(@, [c |-> c, ty |-> ty, idle |-> Idle(m.st, c)])]
 
 \* Change.notifyStatusChange(cs) -> processRestartForChange(chg, old, cs)
@@ -194,10 +197,9 @@ ApplyRMem(m, sc, uc) ==
 KeepR == UNCHANGED <<rFixed, fromBoot, pend, wfsr, waitBoot, bootId, lobs, started, called, rMon>>
 
 -----------------------------------------------------------------------------
-REnsurePass ==
+REnsureWith(order) ==
   /\ started /\ ~stopped
-  /\ \E order \in Perms :
-       LET r == RPassResult(order) IN
+  /\ LET r == RPassResult(order) IN
        /\ ApplyRMem(r.m, 0, 0)
        /\ atTime' = r.at
        /\ running' = r.run
@@ -206,6 +208,7 @@ REnsurePass ==
        /\ redoBad' = r.redo
   /\ UNCHANGED <<graphVars, now, stopped, everDone, everUndone, failedDo, failedUndo, aborted, budget>>
   /\ UNCHANGED <<rFixed, bootId, started, called, bootCb, rbudget, a_bad, c_bad, d_bad, e_bad>>
+REnsurePass == \E order \in Perms : REnsureWith(order)
 
 RFinishEffect(t, res, after, ws) ==
   LET m == RMem
@@ -279,7 +282,7 @@ MarkTask(m, t, s, w) ==
   IF classic /\ s \in {"Undo", "Undone"}
   THEN [RSetSt([m EXCEPT !.pend[c] = "none"], t, s) EXCEPT !.lg = "skipped"]
   ELSE LET m1 == [m EXCEPT !.wf[c] = TRUE] IN
-       IF w THEN [RSetToWait([m1 EXCEPT !.wb[t] = bootId], t, s) EXCEPT !.lg = "wait"]
+       IF w THEN [RSetToWait([m1 EXCEPT !.wb[t] = m.boot], t, s) EXCEPT !.lg = "wait"]
        ELSE [RSetSt(m1, t, s) EXCEPT !.lg = "requested"]
 
 \* changeHasRestartBoundary / TaskIsRestartBoundary
@@ -375,43 +378,68 @@ Boot(b) ==
   /\ rbudget' = IF b = bootId THEN rbudget ELSE [rbudget EXCEPT !.boots = @ + 1]
 
 \* RestartManager.StartUp: tasks of a change in chg.Tasks() order
-RECURSIVE StartUpTasks(_, _, _, _)
-StartUpTasks(m, ts, i, still) ==
+RECURSIVE StartUpTasks(_, _, _, _, _)
+StartUpTasks(m, ts, i, still, b) ==       \* b = RestartManager.bootID
   IF i > Len(ts) THEN [m |-> m, still |-> still]
   ELSE LET t == ts[i] IN
-       IF m.st[t] # "Wait" \/ m.wb[t] = 0 THEN StartUpTasks(m, ts, i + 1, still)
-       ELSE IF m.wb[t] = bootId THEN StartUpTasks(m, ts, i + 1, TRUE)          \* no boot has intervened yet
-       ELSE StartUpTasks([RSetSt(m, t, m.wd[t]) EXCEPT !.wb[t] = 0], ts, i + 1, still)
-RECURSIVE StartUpChanges(_, _)
-StartUpChanges(m, c) ==
+       IF m.st[t] # "Wait" \/ m.wb[t] = 0 THEN StartUpTasks(m, ts, i + 1, still, b)
+       ELSE IF m.wb[t] = b THEN StartUpTasks(m, ts, i + 1, TRUE, b)          \* no boot has intervened yet
+       ELSE StartUpTasks([RSetSt(m, t, m.wd[t]) EXCEPT !.wb[t] = 0], ts, i + 1, still, b)
+RECURSIVE StartUpChanges(_, _, _)
+StartUpChanges(m, c, b) ==
   IF c > NC THEN m
-  ELSE IF m.rdy[c] \/ ~m.wf[c] THEN StartUpChanges(m, c + 1)
-  ELSE LET r == StartUpTasks(m, SetToSeq(TasksOf(c)), 1, FALSE)
-       IN StartUpChanges(IF r.still THEN r.m ELSE [r.m EXCEPT !.wf[c] = FALSE], c + 1)
+  ELSE IF m.rdy[c] \/ ~m.wf[c] THEN StartUpChanges(m, c + 1, b)
+  ELSE LET r == StartUpTasks(m, SetToSeq(TasksOf(c)), 1, FALSE, b)
+       IN StartUpChanges(IF r.still THEN r.m ELSE [r.m EXCEPT !.wf[c] = FALSE], c + 1, b)
 
 \* "update task statuses for tasks that are in WaitStatus": boot id differs -> waited status; same -> untouched
-StartUpOK(q) ==
+StartUpOK(q, b) ==
   \A t \in Tasks :
     IF status[t] = "Wait" /\ waitBoot[t] # 0
-    THEN IF waitBoot[t] # bootId THEN q.st[t] = waited[t] /\ q.wb[t] = 0
+    THEN IF waitBoot[t] # b THEN q.st[t] = waited[t] /\ q.wb[t] = 0
          ELSE q.st[t] = "Wait" /\ q.wb[t] = waitBoot[t]
     ELSE q.st[t] = status[t]
 
 StartUp ==
   /\ ~started
   /\ started' = TRUE
-  /\ LET m == StartUpChanges(RMem, 1) IN
+  /\ LET m == StartUpChanges(RMem, 1, bootId) IN
      /\ ApplyRMem(m, 0, 0)
-     /\ c_bad' = (c_bad \/ ~StartUpOK([st |-> m.st, wb |-> m.wb]))
+     /\ c_bad' = (c_bad \/ ~StartUpOK([st |-> m.st, wb |-> m.wb], bootId))
   /\ UNCHANGED <<graphVars, atTime, clean, now, running, stopped, c02bad, redoBad, everDone, everUndone,
                  failedDo, failedUndo, aborted, budget>>
   /\ UNCHANGED <<rFixed, bootId, called, bootCb, rbudget, a_bad, d_bad, e_bad>>
 
+\* Boot(b) immediately followed by StartUp, as one step (model checking: the state in between only matters
+\* for a crash between the two, which is just another Boot)
+BootStart(b) ==
+  /\ b \in {bootId, bootId + 1} /\ b <= MaxBoot
+  /\ BootAnywhere \/ running = {}
+  /\ IF b = bootId THEN budget.restart < MaxRestart ELSE TRUE
+  /\ budget' = IF b = bootId THEN [budget EXCEPT !.restart = @ + 1] ELSE budget
+  /\ rbudget' = IF b = bootId THEN rbudget ELSE [rbudget EXCEPT !.boots = @ + 1]
+  /\ running' = {} /\ stopped' = FALSE /\ called' = {} /\ started' = TRUE /\ bootId' = b
+  /\ bootCb' = IF fromBoot # 0 /\ fromBoot = b THEN "did-not-happen" ELSE "as-expected"
+  /\ e_bad' = (e_bad \/ (bootCb' = "did-not-happen") # (expecting /\ b = bootId))
+  /\ LET m0 == [RMem EXCEPT !.rdy = [c \in Changes |-> IsReadyS(ChgStatus(status, c))],
+                            !.lobs = [c \in Changes |-> "Default"],
+                            !.boot = b,
+                            !.from = IF fromBoot # 0 /\ fromBoot # b THEN 0 ELSE fromBoot]
+         m == StartUpChanges(m0, 1, b)
+     IN /\ ApplyMem(m)
+        /\ pend' = m.pend /\ lobs' = m.lobs /\ fromBoot' = m.from /\ waitBoot' = m.wb /\ wfsr' = m.wf
+        /\ owed' = OwedAfter(owed, 0, 0, m.rq, m.nt)
+        /\ b_spur' = (b_spur \/ SpurIn(owed, 0, 0, m.rq, m.nt))
+        /\ b_busy' = (b_busy \/ BusyIn(m.rq, m.nt))
+        /\ expecting' = ((expecting /\ b = bootId) \/ SysReqs(m.rq) # {})
+        /\ c_bad' = (c_bad \/ ~StartUpOK([st |-> m.st, wb |-> m.wb], b))
+  /\ UNCHANGED <<graphVars, atTime, clean, now, c02bad, redoBad, everDone, everUndone, failedDo, failedUndo, aborted>>
+  /\ UNCHANGED <<rFixed, a_bad, d_bad>>
+
 \* named so that TLC's action coverage shows the interesting branches were taken
-StartUpResolving == StartUp /\ status' # status
-StartUpKeeping   == StartUp /\ status' = status
-Reboot       == Boot(bootId + 1)
-SnapdRestart == Boot(bootId)
+RebootResolving == BootStart(bootId + 1) /\ status' # status
+RebootKeeping   == BootStart(bootId + 1) /\ status' = status
+SnapdRestart    == BootStart(bootId)
 HRestartRequesting == HRestartEnv /\ fromBoot' # fromBoot
 HRestartQuiet      == HRestartEnv /\ fromBoot' = fromBoot
 FinishRequesting   == RFinishEnv /\ pend' # pend
@@ -423,8 +451,7 @@ RNext ==
   \/ HRestartRequesting \/ HRestartQuiet
   \/ \E c \in Changes : RUserAbort(c)
   \/ RTick
-  \/ Reboot \/ SnapdRestart
-  \/ StartUpResolving \/ StartUpKeeping
+  \/ RebootResolving \/ RebootKeeping \/ SnapdRestart
 
 -----------------------------------------------------------------------------
 RInitState ==
@@ -445,7 +472,7 @@ RInitState ==
 ForwardDags == {w \in [Tasks -> SUBSET Tasks] : \A t \in Tasks : w[t] \subseteq 1..(t-1)}
 
 MCRInit ==
-  /\ waits \in ForwardDags
+  /\ waits \in DagChoices
   /\ lanes = [t \in Tasks |-> <<0>>]
   /\ hasUndo = [t \in Tasks |-> TRUE]
   /\ chgOf = [t \in Tasks |-> 1]
@@ -453,15 +480,24 @@ MCRInit ==
   /\ snap = [t \in Tasks |-> 0]
   /\ InitState
   /\ classic \in ClassicChoices
-  /\ boundary \in [Tasks -> BoundaryChoices]
+  /\ boundary \in BoundaryChoices
   /\ RInitState
 
 MCRSpec == MCRInit /\ [][RNext]_rvars
 
+\* hide write-only history variables of TaskEngine (they feed C01-C04 only)
+RView == <<graphVars, status, waited, atTime, now, running, rdy, stopped, panicked, budget, rFixed, rState, rMon>>
+
 \* cfg helpers
-BoundAll  == SUBSET Dirs
-BoundSome == {{}, {"do"}, {"undo"}}
-BoundNone == {{}}
+Chain == {[t \in Tasks |-> IF t = 1 THEN {} ELSE {t - 1}]}
+ChainFork == Chain \cup {[t \in Tasks |-> IF t = 1 THEN {} ELSE {1}]}
+BoundAll  == [Tasks -> SUBSET Dirs]
+BoundSome == [Tasks -> {{}, {"do"}, {"undo"}}]
+BoundNone == {[t \in Tasks |-> {}]}
+Mark(f) == [t \in Tasks |-> IF t \in DOMAIN f THEN f[t] ELSE {}]
+\* none; do on 1; do on 2; undo on 2; do on 1 + undo on 2 (snapd's link-snap / unlink-snap pattern); both on 1
+BoundQuick == {Mark(<<>>), Mark(<<{"do"}>>), Mark(<<{}, {"do"}>>), Mark(<<{}, {"undo"}>>),
+               Mark(<<{"do"}, {"undo"}>>), Mark(<<{"do", "undo"}>>)}
 BoolBoth  == BOOLEAN
 CoreOnly  == {FALSE}
 ClassicOnly == {TRUE}
@@ -520,18 +556,38 @@ E03e == ~e_bad
 E03 == E03a /\ E03b /\ E03c /\ E03d /\ E03e
 
 \* the R-operators are TaskEngine's operators on TaskEngine's variables
-RefinesTE ==
-  /\ [][REnsurePass => EnsurePass]_rvars
-  /\ [][\A t \in Tasks : \A res \in {"ok", "err"} : RFinish(t, res, 0, "Done") => Finish(t, res, 0, "Done")]_rvars
-  /\ [][\A c \in Changes : RUserAbortCore(c) => UserAbortCore(c)]_rvars
+RefinesEnsure == [][REnsurePass => EnsurePass]_rvars
+RefinesFinish == [][\A t \in Tasks : \A res \in {"ok", "err"} : RFinish(t, res, 0, "Done") => Finish(t, res, 0, "Done")]_rvars
+RefinesAbort  == [][\A c \in Changes : RUserAbortCore(c) => UserAbortCore(c)]_rvars
 
-\* after a reboot was requested and happened the change goes on: under fairness every change settles
+\* (c, "its waiters run") after the reboot that was asked for has happened the change goes on: with handlers
+\* returning, Ensure being called and the awaited reboot eventually happening, every change settles
+WaitingForReboot == \E t \in Tasks : status[t] = "Wait" /\ waitBoot[t] = bootId
+AskedReboot == WaitingForReboot /\ running = {} /\ BootStart(bootId + 1)
+RNextLive ==
+  \/ REnsurePass \/ RFinishEnv \/ HRestartEnv
+  \/ \E c \in Changes : RUserAbort(c)
+  \/ RTick
+  \/ AskedReboot \/ SnapdRestart
 RFairness ==
   /\ WF_rvars(REnsurePass)
   /\ \A t \in Tasks : WF_rvars(RFinish(t, "ok", 0, "Done") /\ UNCHANGED budget)
-  /\ WF_rvars(StartUp)
   /\ WF_rvars(RTick)
-  /\ WF_rvars((\E t \in Tasks : status[t] = "Wait") /\ started /\ running = {} /\ Reboot)
+  /\ WF_rvars(AskedReboot)
 RSettles == <>[]Quiescent
-MCRLive == MCRInit /\ [][RNext]_rvars /\ RFairness
+MCRLive == MCRInit /\ [][RNextLive]_rvars /\ RFairness
+
+\* two changes side by side (tasks 1..N-1 in change 1, task N in change 2; dependencies inside a change only)
+MCRInit2 ==
+  /\ chgOf = [t \in Tasks |-> IF t < N THEN 1 ELSE 2]
+  /\ waits \in {w \in DagChoices : \A t \in Tasks : \A u \in w[t] : chgOf[u] = chgOf[t]}
+  /\ lanes = [t \in Tasks |-> <<0>>]
+  /\ hasUndo = [t \in Tasks |-> TRUE]
+  /\ kind = [t \in Tasks |-> "neutral"]
+  /\ snap = [t \in Tasks |-> 0]
+  /\ InitState
+  /\ classic \in ClassicChoices
+  /\ boundary \in BoundaryChoices
+  /\ RInitState
+MCRSpec2 == MCRInit2 /\ [][RNext]_rvars
 =============================================================================
